@@ -9,9 +9,12 @@ CONSTANTS Sessions, MaxCh, MaxSteps
 \* alice has a password, ghost is unknown, empty is configured with ""; ALICE and alice_ are NOT configured: they are
 \* alice's name in another letter case / with a blank appended (NTLMv2 hashes the upper-cased name, so a proof made with
 \* alice's password is cryptographically fine for them - but the named user has no configured password)
-Users == {"alice", "ghost", "empty", "ALICE", "alice_"}
-HasPassword(u) == u = "alice"
-Pws == {"right", "wrong"}
+\* bob is a second configured user with his own password
+Users == {"alice", "bob", "ghost", "empty", "ALICE", "alice_"}
+HasPassword(u) == u \in {"alice", "bob"}
+\* "right": proof of the named user's configured password; "wrong": a wrong password; "asbob": the message names the user
+\* but its proof was computed from bob's name and password (a proof of somebody else's password is no proof)
+Pws == {"right", "wrong", "asbob"}
 
 VARIABLES ctx,     \* session -> challenge the service is waiting a proof for (0 = none)
           seen,    \* session -> latest challenge the client received there (0 = none)
@@ -26,7 +29,9 @@ NoCall == [kind |-> "none", s |-> "none", msg |-> NoMsg, ctxBefore |-> 0, authed
 Init == /\ ctx = [s \in Sessions |-> 0] /\ seen = [s \in Sessions |-> 0] /\ nextCh = 1
         /\ sent = NoMsg /\ last = NoCall /\ steps = 0
 
-Proves(m, c) == c # 0 /\ m.ch = c /\ HasPassword(m.u) /\ m.pw = "right"
+\* (a proof computed from bob's credentials in a message that names bob is simply bob's right proof)
+RightProof(m) == m.pw = "right" \/ (m.pw = "asbob" /\ m.u = "bob")
+Proves(m, c) == c # 0 /\ m.ch = c /\ HasPassword(m.u) /\ RightProof(m)
 
 \* negotiate: always answered with a fresh challenge that replaces the pending one
 Bump == steps < MaxSteps /\ steps' = steps + 1
@@ -67,11 +72,11 @@ Spec == Init /\ [][Next]_vars
 OnlyProofOfPassword ==
   last.authed => /\ last.kind \in {"auth", "replay"}
                  /\ last.ctxBefore # 0 /\ last.msg.ch = last.ctxBefore        \* a negotiate came first, in this session, and the proof is for that challenge
-                 /\ HasPassword(last.msg.u) /\ last.msg.pw = "right"
+                 /\ HasPassword(last.msg.u) /\ RightProof(last.msg)
                  /\ last.user = last.msg.u
-NeverUnknownOrEmpty == last.authed => last.msg.u = "alice"
+NeverUnknownOrEmpty == last.authed => last.msg.u \in {"alice", "bob"}
 HonestClientSucceeds ==
-  (last.kind = "auth" /\ last.ctxBefore # 0 /\ last.msg.ch = last.ctxBefore /\ last.msg.u = "alice" /\ last.msg.pw = "right") => last.authed
+  (last.kind = "auth" /\ last.ctxBefore # 0 /\ last.msg.ch = last.ctxBefore /\ last.msg.u \in {"alice", "bob"} /\ RightProof(last.msg)) => last.authed
 NoReplayAfterSuccess == (last.authed) => ctx[last.s] = 0
 ChallengesFresh == \A s, t \in Sessions : (s # t /\ ctx[s] # 0) => ctx[s] # ctx[t]
 =============================================================================
